@@ -6,6 +6,7 @@ from ..index import unparse, iter_own_nodes, AnalysisError
 from ..cfg import calls_in_node, INF, handler_catches_all_exceptions
 from ..contain import protecting_handler, in_handler
 from ..framework import stores_to_name, assigned_values
+from .. import exprs as X
 from . import common
 
 EXPLANATION = (
@@ -335,6 +336,7 @@ def rule_report(chk, content=True):
     # content of the report
     rep = report_dict(chk)
     chk.need(rep is not None, "report dict not analysable")
+    rep = {k_: X.inline(send, v_) for k_, v_ in rep.items()}  # temporaries holding a report field are looked through
     K = p.fold_global(p.mod("_message"), "MESSAGE_TYPE_FIELD")
     RK = p.fold_global(p.mod("_message"), "REASON_FIELD")
     EK = p.fold_global(p.mod("_message"), "EXCEPTION_FIELD")
@@ -413,7 +415,16 @@ def rule_report_logger(chk):
         problems.append("the report does not carry the writing logger under %s" % KEY)
     # 3. log_message does not strip it when there is a current action
     calls = [(n, c) for n, c, m in ctx.calls_to(lm, alog)]
+    from . import c02 as _c02
+    roots_lm = _c02.root_sites(ctx, lm)
     for n, c in calls:
+        recv = c.func.value if isinstance(c.func, ast.Attribute) else None
+        if isinstance(recv, ast.Name):
+            rv = assigned_values(lm, recv.id)
+            if len(rv) == 1 and any(rv[0] is r_ for r_ in roots_lm):
+                continue  # the context-less arm: a fresh one-message task built from the popped logger
+        elif any(recv is r_ for r_ in roots_lm):
+            continue
         kwv = [k.value.id for k in c.keywords if k.arg is None and isinstance(k.value, ast.Name)]
         if not kwv:
             problems.append("log_message does not pass its fields on to Action.log")
@@ -426,11 +437,9 @@ def rule_report_logger(chk):
     wr = [(n, c) for n in cfg.live for c, m in calls_in_node(n) if isinstance(c.func, ast.Attribute) and c.func.attr == "write"]
     ok4 = False
     for n, c in wr:
-        r = c.func.value
-        if isinstance(r, ast.Name):
-            vals = assigned_values(alog, r.id)
-            ok4 = len(vals) == 1 and isinstance(vals[0], ast.Call) and isinstance(vals[0].func, ast.Attribute) and vals[0].func.attr == "pop" and vals[0].args \
-                and isinstance(vals[0].args[0], ast.Constant) and vals[0].args[0].value == KEY and len(vals[0].args) == 2 and common.is_self_attr(vals[0].args[1], "_logger")
+        r = X.inline(alog, c.func.value)
+        if isinstance(r, ast.Call) and isinstance(r.func, ast.Attribute) and r.func.attr == "pop" and len(r.args) == 2:
+            ok4 = ok4 or (ctx.try_fold(alog, r.args[0]) == (True, KEY) and common.is_self_attr(r.args[1], "_logger"))
     if not ok4:
         problems.append("Action.log does not write through fields.pop(%r, self._logger)" % KEY)
     chk.req(not problems, "C08.report", "send:report-written-through-the-failing-logger", chk.where(send),
